@@ -181,7 +181,26 @@ def run(p: Program, rep: Report, tier: str) -> None:
                     reads_fd = any(e.kind == "call" and "os.read" in show(e.a) + show(e.b) for e in pa.events) or any("os.read" in show(e.b) for e in pa.events if e.kind == "call")
                     more_false = any((not t) and "more_body" in show(f) for f, t in pa.facts)
                     more_true = any(t and "more_body" in show(f) for f, t in pa.facts)
-                    if pushes and not reads_fd:
+                    preads = []   # offset argument of every os.pread (called directly or through run_in_threadpool)
+                    for e in pa.events:
+                        if e.kind != "call":
+                            continue
+                        if e.a == ("ext", "os.pread") and len(e.b) > 2:
+                            preads.append(e.b[2])
+                        elif e.b and e.b[0] == ("ext", "os.pread") and len(e.b) > 3:
+                            preads.append(e.b[3])
+                    fixed = None
+                    for off in preads:
+                        for y in subterms(off):
+                            if y[0] == "call" and y[1][0] == "attr" and y[1][2] == "get" and len(y[2]) == 2 and y[2][0] == ("const", "offset") and y[2][1][0] == "const" and y[2][1][1] is not None:
+                                fixed = y
+                    if pushes and preads and fixed is not None:
+                        rep.violation("R20.4", construct(cb, text=f"zerocopysend read with os.pread at {show(fixed)[:40]}"), where(cb),
+                                      f"asgi: a zero-copy send message is read with os.pread at `{show(fixed)[:50]}`: a message WITHOUT an offset means 'from the descriptor's current position', "
+                                      f"not position {fixed[2][1][1]!r} - an inner application that seeks first, or sends two messages without offsets, gets its body relayed from the wrong place", positive=True)
+                    elif pushes and preads:
+                        rep.undecide("R20.4", "asgi: a zero-copy send message is read with os.pread; that a missing offset means the descriptor's current position is not followed")
+                    elif pushes and not reads_fd:
                         rep.violation("R20.4", construct(cb, text="zerocopysend relayed without reading the file"), where(cb), "asgi: a zero-copy send message is relayed without reading the bytes of its file descriptor")
                     elif eofs and not more_false:
                         rep.violation("R20.4", construct(cb, text="eof while more_body"), where(cb), "asgi: end of body is signalled although more_body is true")
@@ -445,8 +464,8 @@ def run(p: Program, rep: Report, tier: str) -> None:
         rep.ok("R20.7", "BaseResponse.list_headers emits every stored header value whole (encode only)")
     rep.require_instances("R20.7", 3)
     # ---------------------------------------------------------------- R20.8 the header mapping's constructor (shared rule, sa/props/hdr_common.py)
-    from .hdr_common import headers_ctor_passthrough, headers_ctor_own_store
-    for _f in (headers_ctor_passthrough, headers_ctor_own_store,):
+    from .hdr_common import headers_ctor_passthrough, headers_ctor_own_store, headers_ctor_folds
+    for _f in (headers_ctor_passthrough, headers_ctor_own_store, headers_ctor_folds):
         for kind, fn_, node, cons, msg in _f(p):
             if kind == "ok":
                 rep.analysed(fn_.fq)
